@@ -11,7 +11,7 @@ import (
 
 func init() {
 	exec := map[string]func(in In, em *Emitter){
-		"masks": execMasks, "rank": execRank, "select": execSelect, "scan": execScan,
+		"masks": execMasks, "rank": execRank, "rankl": execRankL, "select": execSelect, "selectl": execSelectL, "scan": execScan,
 		"of": execOf, "ofmany": execOfMany, "toarray": execToArray, "join": execJoin, "slice": execSlice,
 		"bld": execBuilder,
 	}
@@ -186,8 +186,143 @@ func execRank(in In, em *Emitter) {
 	em.Calls(3*n + 4)
 }
 
+// longWords builds a long bitmap from the list of its 1-bits (sparse) or 0-bits (dense).
+func longWords(in In) []uint64 {
+	nw := in.Int("nw")
+	ws := make([]uint64, nw+1)
+	ws[nw] = 0x5555555555555555 // a word behind the view
+	ws = ws[:nw]
+	dense := in.Bool("dense")
+	if dense {
+		for i := range ws {
+			ws[i] = ^uint64(0)
+		}
+	}
+	for _, p := range in.Is("list") {
+		if dense {
+			ws[p>>6] &^= 1 << uint(p&63)
+		} else {
+			ws[p>>6] |= 1 << uint(p&63)
+		}
+	}
+	return ws
+}
+
+func pairsAt(xs []int32, f func(i int32) (int32, int32)) [][]int64 {
+	r := make([][]int64, len(xs))
+	for j, x := range xs {
+		a, b := f(x)
+		r[j] = []int64{num(int64(a)), num(int64(b))}
+	}
+	return r
+}
+
+func execRankL(in In, em *Emitter) {
+	ws := longWords(in)
+	pos := in.I32s("pos")
+	o := J{}
+	abn := guard(func() {
+		idx64, idx64t, idx128 := bitmap.IndexRank64(ws), bitmap.IndexRank64(ws, true), bitmap.IndexRank128(ws)
+		o = J{"idx64": nums32(idx64), "idx64t": nums32(idx64t), "idx128": nums32(idx128),
+			"r64":  pairsAt(pos, func(i int32) (int32, int32) { return bitmap.Rank64(ws, idx64, i) }),
+			"r64t": pairsAt(pos, func(i int32) (int32, int32) { return bitmap.Rank64(ws, idx64t, i) }),
+			"r128": pairsAt(pos, func(i int32) (int32, int32) { return bitmap.Rank128(ws, idx128, i) })}
+	})
+	em.Emit("rankl", J{"in": in.m, "out": o, "abn": abn})
+	em.Calls(3*len(pos) + 3)
+}
+
+func execSelectL(in In, em *Emitter) {
+	ws := longWords(in)
+	is := in.I32s("is")
+	o := J{}
+	abn := guard(func() {
+		sidx := bitmap.IndexSelect32(ws)
+		sidx2, ridx := bitmap.IndexSelect32R64(ws)
+		o = J{"sidx": nums32(sidx), "sidx2": nums32(sidx2), "ridx": nums32(ridx),
+			"sel":  pairsAt(is, func(i int32) (int32, int32) { return bitmap.Select32(ws, sidx, i) }),
+			"selr": pairsAt(is, func(i int32) (int32, int32) { return bitmap.Select32R64(ws, sidx2, ridx, i) })}
+	})
+	em.Emit("selectl", J{"in": in.m, "out": o, "abn": abn})
+	em.Calls(2*len(is) + 2)
+}
+
+// genLong emits long bitmaps (beyond 2^16 bits: 16-bit block counters, 65536-bit superblocks) as lists of
+// their 1-bits or 0-bits, with sampled positions / ranks around the list entries and the block boundaries.
+func genLong(g *Gen, kind string, n int) {
+	r := g.R
+	for c := 0; c < n; c++ {
+		nw := []int{1024, 1025, 1100, 2048, 2100, 4100}[r.Intn(6)]
+		nbits := int64(nw * 64)
+		dense := c%2 == 1
+		set := map[int64]bool{}
+		for k := 20 + r.Intn(150); k > 0; k-- {
+			var p int64
+			switch r.Intn(4) {
+			case 0:
+				p = int64(1<<16)*int64(1+r.Intn(int(nbits>>16))) + int64(r.Intn(5)) - 2 // around multiples of 65536
+			case 1:
+				p = int64(1+r.Intn(nw-1))*64 + int64(r.Intn(3)) - 1
+			default:
+				p = r.Int63n(nbits)
+			}
+			if p >= 0 && p < nbits {
+				set[p] = true
+			}
+		}
+		var list []int64
+		for p := range set {
+			list = append(list, p)
+		}
+		sortI64(list)
+		in := J{"nw": nw, "dense": dense, "list": list}
+		if kind == "rankl" {
+			pos := []int64{0, nbits - 1, 65535, 65536, 65537, 131071, 131072}
+			for _, p := range list {
+				if r.Intn(3) == 0 {
+					pos = append(pos, p-1, p, p+1)
+				}
+			}
+			for k := 0; k < 40; k++ {
+				pos = append(pos, r.Int63n(nbits))
+			}
+			var ok []int64
+			for _, p := range pos {
+				if p >= 0 && p < nbits {
+					ok = append(ok, p)
+				}
+			}
+			in["pos"] = ok
+		} else {
+			nones := int64(len(list))
+			if dense {
+				nones = nbits - int64(len(list))
+			}
+			is := []int64{0, nones - 1, nones - 2, 31, 32, 33, 65535, 65536, 65537, 32767, 32768}
+			for k := 0; k < 60; k++ {
+				is = append(is, r.Int63n(nones))
+			}
+			if dense {
+				for _, z := range list { // ranks right before and after a 0-bit
+					i := z - int64(len(list)) // rough neighbourhood
+					is = append(is, i, i+1, z-1, z)
+				}
+			}
+			var ok []int64
+			for _, i := range is {
+				if i >= 0 && i < nones {
+					ok = append(ok, i)
+				}
+			}
+			in["is"] = ok
+		}
+		g.Case(kind, in)
+	}
+}
+
 func genC01(g *Gen) {
 	g.Case("masks", J{})
+	genLong(g, "rankl", g.N(6, 120))
 	genBitmaps(g, g.N(1200, 40000), 10, 3, func(ws []uint64) {
 		g.Case("rank", J{"bm": bmJ(ws)})
 	})
@@ -225,6 +360,7 @@ func execSelect(in In, em *Emitter) {
 func genC02(g *Gen) {
 	r := g.R
 	emit := func(ws []uint64) { g.Case("select", J{"bm": bmJ(ws)}) }
+	genLong(g, "selectl", g.N(6, 120))
 	genBitmaps(g, g.N(1000, 40000), 8, 2, emit)
 	// every single-byte word b << 8j: the whole 256x8 in-byte lookup table through the API
 	for b := 1; b < 256; b++ {
@@ -339,6 +475,22 @@ func genC13(g *Gen) {
 				pl = append(pl, p)
 			}
 		}
+		if len(pl) > 70 { // long bitmaps: a seeded sample of the candidate end points, always with the 1-bits' neighbours
+			keep := map[int64]bool{0: true, n: true}
+			for _, p := range ones {
+				keep[p], keep[p+1] = true, true
+			}
+			for len(keep) < 70 {
+				keep[pl[r.Intn(len(pl))]] = true
+			}
+			var pl2 []int64
+			for _, p := range pl {
+				if keep[p] {
+					pl2 = append(pl2, p)
+				}
+			}
+			pl = pl2
+		}
 		var ranges [][]int64
 		for _, i := range pl {
 			for _, e := range pl {
@@ -358,6 +510,15 @@ func genC13(g *Gen) {
 		g.Case("scan", J{"bm": bmJ(ws), "ranges": ranges})
 	}
 	genBitmaps(g, g.N(800, 30000), 7, 6, emit)
+	// long sparse bitmaps: a handful of 1-bits over 300..2100 words (scans over hundreds of empty words)
+	for c := 0; c < g.N(10, 300); c++ {
+		nw := 300 + r.Intn(1801)
+		ws := make([]uint64, nw)
+		for k := 2 + r.Intn(8); k > 0; k-- {
+			ws[r.Intn(nw)] |= 1 << uint([]int{0, 63, r.Intn(64)}[r.Intn(3)])
+		}
+		emit(ws)
+	}
 	// 1-bits separated by 1..5 all-zero words, bits at offsets 0 and 63
 	for gap := 1; gap <= 5; gap++ {
 		for rep := 0; rep < g.N(6, 40); rep++ {
